@@ -309,9 +309,10 @@ def exact_pov(n, m):
 
 def oracle_grid_pairing_bilinear(ctx):
     rng = ctx.np_rng
-    shapes = [(16, 1, 1), (16, 3, 2), (32, 4, 1), (48, 2, 3), (64, 8, 4), (100, 3, 1), (256, 5, 2), (1024, 2, 2), (4096, 2, 1)]
+    shapes = [(16, 1, 1), (16, 3, 2), (32, 4, 1), (48, 2, 3), (64, 8, 4), (100, 3, 1), (256, 5, 2), (1024, 2, 2), (4096, 2, 1),
+              (9, 2, 3), (15, 3, 1), (25, 2, 2), (125, 3, 2), (1023, 2, 1)]  # odd nxseg: lines k*fs/nxseg, k = 0..(nxseg-1)/2, the last one below Nyquist
     if not ctx.quick():
-        shapes += [(20, 6, 4), (128, 7, 3), (512, 8, 1), (2048, 3, 4), (4096, 8, 4), (50, 1, 2)]
+        shapes += [(20, 6, 4), (128, 7, 3), (512, 8, 1), (2048, 3, 4), (4096, 8, 4), (50, 1, 2), (17, 4, 2), (63, 2, 4), (255, 5, 1), (999, 2, 2), (4095, 1, 1)]
     fss = [1.0, 10.0, 100.0, 12.5, 3.0, 0.5, 250.0, 2000.0]
     for (n, nall, nref) in shapes:
         for method in ("per", "cor"):
@@ -335,9 +336,11 @@ def oracle_grid_pairing_bilinear(ctx):
                 f, S = sd_est(Y, Yr, 1.0 / fs, n, method, pov)
                 # grid: one line every fs/n from 0 to fs/2; matrix n_all x n_ref x lines
                 fe = np.arange(n // 2 + 1) * fs / n
-                if f.shape != fe.shape or not np.allclose(f, fe, rtol=1e-12, atol=0) or f[0] != 0.0 or abs(f[-1] - fs / 2) > 1e-12 * fs:
-                    ofail(ctx, method, "grid", "frequency vector is not k*fs/nxseg, k = 0..nxseg/2 (got %d lines, last %.6g, expected %d, %.6g)"
-                          % (len(f), f[-1] if len(f) else float("nan"), len(fe), fe[-1]), case)
+                nyq_ok = len(f) > 0 and (n % 2 == 1 or abs(f[-1] - fs / 2) <= 1e-12 * fs)
+                if f.shape != fe.shape or not np.allclose(f, fe, rtol=1e-12, atol=0) or f[0] != 0.0 or not nyq_ok:
+                    sp = float(f[1] - f[0]) if len(f) > 1 else float("nan")
+                    ofail(ctx, method, "grid", "frequency vector is not one line every fs/nxseg from 0 (got %d lines, spacing %.9g, last %.9g; expected %d lines, "
+                          "spacing %.9g, last %.9g)" % (len(f), sp, f[-1] if len(f) else float("nan"), len(fe), fs / n, fe[-1]), case)
                     continue
                 if S.shape != (nall, nref, n // 2 + 1):
                     ofail(ctx, method, "shape", "Sy has shape %s, expected (n_all, n_ref, nxseg/2+1) = %s" % (S.shape, (nall, nref, n // 2 + 1)), case)
@@ -381,7 +384,7 @@ def oracle_welch(ctx):
             ctx.note("nxseg=%d, pov=%r: float(nxseg*pov)=%r, SD_est passes it to scipy which truncates: the estimate %s Welch's with overlap %d instead of %d "
                      "(float product not an integer: outside 'overlaps with integer nxseg*pov', not judged; int(round(nxseg*pov)) would remove it)"
                      % (n, m / n, n * (m / n), "equals" if lower else "is not", m - 1, m))
-    sizes = [16, 32, 64, 100, 256, 1024, 4096] if ctx.quick() else [16, 20, 32, 48, 64, 100, 128, 200, 256, 512, 1000, 1024, 2048, 4096]
+    sizes = [16, 32, 64, 100, 256, 1024, 4096, 25, 125] if ctx.quick() else [16, 20, 32, 48, 64, 100, 128, 200, 256, 512, 1000, 1024, 2048, 4096, 17, 25, 125, 255, 1023]
     reps = ctx.n(2, 4)
     for n in sizes:
         for rep in range(reps):
@@ -502,9 +505,13 @@ def oracle_gain_delay(ctx):
 def oracle_sinusoid(ctx):
     """'per': stationary sinusoids at grid line k0: Sy[i][j][k0]/Sy[i][i][k0] = A_j/A_i (complex amplitudes), 1e-9."""
     rng = ctx.np_rng
-    confs = [(n, k0) for n in (16, 32) for k0 in range(1, n // 2)]
-    for n in ([64, 256, 1024] if ctx.quick() else [64, 100, 128, 256, 1000, 1024, 4096]):
-        ks = sorted(set([1, 2, n // 2 - 1, n // 2 - 2] + [int(k) for k in rng.integers(1, n // 2, size=ctx.n(3, 8))]))
+    # grid lines whose negative-frequency image is at least two lines away (the Hann window spreads a line over its two neighbours only):
+    # k0 = 1 .. floor((nxseg-2)/2), i.e. all lines away from 0 and Nyquist; odd and non-power-of-two nxseg included
+    def kmax(n):
+        return (n - 2) // 2
+    confs = [(n, k0) for n in (16, 32, 9, 15, 25) for k0 in range(1, kmax(n) + 1)]
+    for n in ([64, 256, 1024, 125, 1023] if ctx.quick() else [64, 100, 128, 256, 1000, 1024, 4096, 63, 125, 255, 999, 1023, 4095]):
+        ks = sorted(set([1, 2, kmax(n), kmax(n) - 1] + [int(k) for k in rng.integers(1, kmax(n) + 1, size=ctx.n(3, 8))]))
         confs += [(n, k0) for k0 in ks]
     for (n, k0) in confs:
         nch = int(rng.integers(2, 5))
@@ -528,6 +535,13 @@ def oracle_sinusoid(ctx):
             f, S = sd_est(Y, Y, 1.0 / fs, n, "per", pov)
             if S.shape != (nch, nch, n // 2 + 1):
                 ofail(ctx, "per", "shape", "Sy has shape %s" % (S.shape,), case)
+                continue
+            # the sinusoids' frequency is k0*fs/nxseg: the spectrum must peak at the line that carries that label
+            kp = int(np.argmax(S[0, 0].real))
+            fsin = k0 * fs / n
+            if len(f) != n // 2 + 1 or kp != k0 or abs(f[kp] - fsin) > 1e-9 * fsin:
+                ofail(ctx, "per", "sinusoid-frequency", "sinusoids at %.9g Hz (grid line %d of nxseg=%d, fs=%g) are reported at %.9g Hz (line %d of %d)"
+                      % (fsin, k0, n, fs, f[kp] if kp < len(f) else float("nan"), kp, len(f)), case)
                 continue
             worst = 0.0
             for i in range(nch):
@@ -580,6 +594,12 @@ def oracle_corpus(ctx):
         Y = np.real(A[:, None] * np.exp(2j * np.pi * k0 * t[None, :] / n))
         ctx.count(dict(kind="corpus-sinusoid", file=os.path.basename(path)))
         f, S = sd_est(Y, Y, 1.0 / c["fs"], n, "per", c["pov"])
+        fsin = k0 * c["fs"] / n
+        kp = int(np.argmax(S[0, 0].real))
+        if len(f) != n // 2 + 1 or kp != k0 or abs(f[kp] - fsin) > 1e-9 * fsin:
+            ofail(ctx, "per", "sinusoid-frequency", "corpus %s: sinusoids at %.9g Hz (grid line %d of nxseg=%d, fs=%g) are reported at %.9g Hz (line %d of %d)"
+                  % (os.path.basename(path), fsin, k0, n, c["fs"], f[kp] if kp < len(f) else float("nan"), kp, len(f)), c)
+            continue
         r = S[0, 1, k0] / S[0, 0, k0]
         if S.shape != (len(A), len(A), n // 2 + 1) or abs(r - A[1] / A[0]) > 1e-9 * abs(A[1] / A[0]):
             ofail(ctx, "per", "sinusoid", "corpus %s: Sy[0][1]/Sy[0][0] = %s, amplitude ratio A_1/A_0 = %s" % (os.path.basename(path), r, A[1] / A[0]), c)
